@@ -40,6 +40,9 @@ CONSTANTS Requests,      \* sequence of connection requests [seat, team, version
           JoinImpl       \* "wait": run() joins every player thread (the code);
                          \* "bounded": join(timeout=...) - may give up at once
                          \* (regression configuration, seeded changes C10-r3m2 / C11-r3m2)
+          , EndAnnounce  \* "after-close": "End of session" is queued once the log is closed
+                         \* (the code since the F2 repair); "before-close": queued first
+                         \* (regression configuration, seeded change C08-r4m2)
 
 NoFault == [board |-> 0, phase |-> "none", index |-> 0]
 \* a free seat of the table (the code's None); "" is a team name like any other
@@ -342,8 +345,14 @@ IsFault(b, phase, idx) == Fault.board = b /\ Fault.phase = phase /\ Fault.index 
       b := b + 1;
     };
    m_close:
-    logState := "closed";
-    toSeat := PutAll(toSeat, MEnd);
+    if (EndAnnounce = "before-close") {
+      toSeat := PutAll(toSeat, MEnd);
+     m_close2:
+      logState := "closed";
+    } else {
+      logState := "closed";
+      toSeat := PutAll(toSeat, MEnd);
+    };
    m_join:
     while (j <= Len(threads)) {
       await finished[threads[j]] \/ JoinImpl = "bounded";
@@ -491,7 +500,7 @@ IsFault(b, phase, idx) == Fault.board = b /\ Fault.phase = phase /\ Fault.index 
 }
 ***************************************************************************)
 \* BEGIN TRANSLATION
-\* Process variable msg of process Main at line 234 col 78 changed to msg_
+\* Process variable msg of process Main at line 237 col 78 changed to msg_
 CONSTANT defaultInitValue
 VARIABLES pc, table, backlog, ev, bar, evSync, evSeat, toSeat, fromSeat, sent, 
           closed, started, finished, threads, log, logState, aborted, 
@@ -1033,15 +1042,29 @@ m_write == /\ pc[0] = "m_write"
                            i, cardk, isdummy >>
 
 m_close == /\ pc[0] = "m_close"
-           /\ logState' = "closed"
-           /\ toSeat' = PutAll(toSeat, MEnd)
-           /\ pc' = [pc EXCEPT ![0] = "m_join"]
+           /\ IF EndAnnounce = "before-close"
+                 THEN /\ toSeat' = PutAll(toSeat, MEnd)
+                      /\ pc' = [pc EXCEPT ![0] = "m_close2"]
+                      /\ UNCHANGED logState
+                 ELSE /\ logState' = "closed"
+                      /\ toSeat' = PutAll(toSeat, MEnd)
+                      /\ pc' = [pc EXCEPT ![0] = "m_join"]
            /\ UNCHANGED << table, backlog, ev, bar, evSync, evSeat, fromSeat, 
                            sent, closed, started, finished, threads, log, 
                            aborted, interrupted, stack, me, waitfor, cur, 
                            alive, b, auc, ply, msg_, j, trick, ci, played, nc, 
                            seat, rq, msg, bn, act, myturn, ncalls, declr, tr, 
                            i, cardk, isdummy >>
+
+m_close2 == /\ pc[0] = "m_close2"
+            /\ logState' = "closed"
+            /\ pc' = [pc EXCEPT ![0] = "m_join"]
+            /\ UNCHANGED << table, backlog, ev, bar, evSync, evSeat, toSeat, 
+                            fromSeat, sent, closed, started, finished, threads, 
+                            log, aborted, interrupted, stack, me, waitfor, cur, 
+                            alive, b, auc, ply, msg_, j, trick, ci, played, nc, 
+                            seat, rq, msg, bn, act, myturn, ncalls, declr, tr, 
+                            i, cardk, isdummy >>
 
 m_join == /\ pc[0] = "m_join"
           /\ IF j <= Len(threads)
@@ -1085,7 +1108,7 @@ Main == m_accept \/ m_start \/ m_ev_wait \/ m_ev_wake \/ m_sleep_adm
            \/ m_alive \/ m_ev_clear \/ m_b1 \/ m_open \/ m_board \/ m_deal
            \/ m_deal2 \/ m_b3 \/ m_auction \/ m_turn \/ m_call
            \/ m_contract \/ m_trick \/ m_sleep_trick \/ m_cards \/ m_card
-           \/ m_write \/ m_close \/ m_join \/ m_raise \/ m_done
+           \/ m_write \/ m_close \/ m_close2 \/ m_join \/ m_raise \/ m_done
 
 op_interrupt == /\ pc[-1] = "op_interrupt"
                 /\ IF Interrupts
@@ -1490,6 +1513,11 @@ SentComplete == (AllDone /\ ~aborted) => \A k \in Reqs : sent[k] = ExpectedStrea
 \* alive would be killed before it has told its seat everything
 RunReturnsAfterThreads ==
   (pc[0] = "Done" /\ ~aborted) => \A k \in Reqs : started[k] => finished[k]
+
+\* C08 / C09: a seat is told "End of session" only when the log is complete
+\* and closed (somebody who reads the log at that moment reads all of it)
+DeclaredOverImpliesLogClosed ==
+  \A k \in Reqs : (Len(sent[k]) > 0 /\ sent[k][Len(sent[k])] = MEnd) => logState = "closed"
 
 \* C13: once main has stopped on an abort the log is closed and holds exactly
 \* the boards finished before
